@@ -102,10 +102,14 @@ def answer_msg(r, which):
     return m
 
 
-def sse_event_bytes(obj, event="message") -> bytes:
-    data = json.dumps(obj, separators=(",", ":"), ensure_ascii=False)
-    head = f"event: {event}\n" if event else ""
-    return (head + f"data: {data}\n\n").encode("utf-8")
+def sse_event_bytes(obj, event="message", nospace=False, multiline=False) -> bytes:
+    sp = "" if nospace else " "
+    if multiline:
+        lines = json.dumps(obj, indent="\t", ensure_ascii=False).split("\n")
+    else:
+        lines = [json.dumps(obj, separators=(",", ":"), ensure_ascii=False)]
+    head = f"event:{sp}{event}\n" if event else ""
+    return (head + "".join(f"data:{sp}{line}\n" for line in lines) + "\n").encode("utf-8")
 
 
 def cut_bytes(b: bytes, cuts):
@@ -286,7 +290,8 @@ def run_case(case):
 
             def sched_event():
                 if ev is not None and w is not None:
-                    data = sse_event_bytes(answer_msg(r, "ev"), "message" if ev.get("typed", True) else None)
+                    data = sse_event_bytes(answer_msg(r, "ev"), "message" if ev.get("typed", True) else None,
+                                           nospace=ev.get("nospace", False), multiline=ev.get("multiline", False))
                     pieces = cut_bytes(data, ev.get("cuts", []))
                     loop.at(now + ev["d"], lambda: w.write_event(pieces, ev.get("gap", 0)))
             if ev is not None and ev.get("after_post_at_tie"):
